@@ -162,7 +162,7 @@ func envelopeHarness(r *fw.Run) fw.HarnessSpec {
 	}
 	ops := []*uint32{nil, new(uint32), new(uint32), new(uint32)}
 	*ops[2], *ops[3] = 0x0f8a7ea5, 0xffffffff
-	return fw.HarnessSpec{Harness: enum.Harness{Name: "message-body-envelope", Bound: r.Pick(1, 2), MaxViolations: 100, Run: func(c *enum.Ctx) {
+	return fw.HarnessSpec{Harness: enum.Harness{Name: "message-body-envelope", Bound: r.Pick(1, 3), MaxViolations: 100, Run: func(c *enum.Ctx) {
 		if len(items) < 100 {
 			c.Fail("registry", "only %d envelope names found", len(items))
 			return
